@@ -271,6 +271,9 @@ func (s *Sandbox) imageImportTar(ls *lua.LState) int {
 		}
 		defer done()
 	}
+	if s.dryRun {
+		return 0
+	}
 	//#nosec G304 command is run by a user accessing their own files
 	rs, err := os.Open(file)
 	if err != nil {
